@@ -299,7 +299,7 @@ def expect_print(mobs: str, io: dict):
 STRUCT_STATS = {"checked": 0, "matched": 0, "unparsed": 0, "mismatched": []}
 
 
-def add_real_literal_inputs(c, k, it, summary, known_inputs, rng=None):
+def add_real_literal_inputs(c, k, it, summary, known_inputs, rng=None, model_summary=None):
     """guided search: every literal the REAL generated code compares the input with (and its ASCII case variants) becomes an
     input, so that an arm or phf key the model does not predict is exercised behaviourally"""
     from . import gen as G
@@ -310,8 +310,38 @@ def add_real_literal_inputs(c, k, it, summary, known_inputs, rng=None):
                 known_inputs.add(s_)
                 c.add_q(k, "fromstr", [hx(s_)], note="near-real-literal")
                 n += 1
+    for s_ in mismatch_search(summary, model_summary):
+        if s_ not in known_inputs:
+            known_inputs.add(s_)
+            c.add_q(k, "fromstr", [hx(s_)], note="search-after-structural-mismatch")
+            n += 1
     c.add_q(k, "struct", ["EnumString"], note="structure")
     return n
+
+
+SEARCH_STATS = {"definitions_whose_real_structure_differs": 0, "inputs_added_by_the_search": 0}
+
+
+def mismatch_search(real, model):
+    """when the REAL generated EnumString code is readable and is NOT the code the model describes, the broken correspondence is
+    followed by a SEARCH for an input on which the two behave differently: every ASCII case flip (all 2^k up to k = 10, else a
+    fixed sample) and every one-edit / bit-5 neighbour of every literal either side compares the input with.  On a tree where the
+    structures agree (the unchanged one) this adds nothing."""
+    import random
+    from . import gen as G
+    if not real or not model or real == model or not real.startswith("phf=") or not model.startswith("phf="):
+        return []
+    SEARCH_STATS["definitions_whose_real_structure_differs"] += 1
+    lits = set(G.literals_of_structure(real)) | set(G.literals_of_structure(model))
+    rng = random.Random(12345)
+    out = set()
+    for lit in lits:
+        fl = G.flips(lit, rng, 1024)
+        out.update(fl)
+        for f_ in list(fl)[:8] + [lit]:
+            out.update(G.neighbours(f_))
+    SEARCH_STATS["inputs_added_by_the_search"] += len(out)
+    return sorted(out)
 
 
 def struct_probe_command(corpus, n, k, kind, args):
@@ -340,7 +370,8 @@ def struct_coverage():
                                        "the deep-embedded language of Model/IterProg.v (proved equal to it_nth / it_next_back / it_len) and the constructor "
                                        "table of get; Display / AsRefStr: one entry per match arm (fixed literal, inner-field forward with its `ref` binding, format_args! with its bound arguments, wildcard panic). A structural difference alone is recorded, not reported",
                                "definitions_checked": STRUCT_STATS["checked"], "identical": STRUCT_STATS["matched"],
-                               "not_readable": STRUCT_STATS["unparsed"], "different": STRUCT_STATS["mismatched"]}}
+                               "not_readable": STRUCT_STATS["unparsed"], "different": STRUCT_STATS["mismatched"],
+                               "search_on_mismatch": dict(SEARCH_STATS, what=mismatch_search.__doc__.strip().replace("\n    ", " "))}}
 
 
 def compare_strings(corpus, k, kind, args, note, iobs, mobs, cfg):
